@@ -17,8 +17,9 @@ Solver run config (JSON input):
    {"solver": "evo"|"hybrid", "target": name in TARGETS, "ne": emitters (evo only), "compiler": "s"|"dm", "seed": int,
     "n_pop": int, "n_stop": int, "n_hof": int, "sel": bool, "adapt": bool, "k": tournament size}
 "Ordered" is demanded exactly as stated: hof[i].score <= hof[i+1].score as floats (no tolerance).
-Circuits are "the same" when their operation sequences (class, registers, register types, classical registers, wrapper
-gate lists, in sequence() order) and their openQASM texts are equal.
+Circuits are "the same" when every register carries the same sequence of operations (class, registers, register types,
+classical registers, wrapper gate lists); the order in which sequence() interleaves different registers is not compared.
+Logs are not compared (the statement speaks of the hall of fame).
 """
 from __future__ import annotations
 
@@ -75,8 +76,22 @@ def describe(circuit):
     return out
 
 
+def wires(circuit):
+    """canonical form of a circuit: for every register the operations on it, in order.  Two circuits with the same
+    wires are the same circuit; the order in which sequence() lists operations of different registers is not part of it."""
+    if circuit is None:
+        return None
+    w = {}
+    for d in describe(circuit):
+        for t, r in zip(d[2], d[1]):
+            w.setdefault(f"{t}{r}", []).append(d)
+        for c in d[3]:
+            w.setdefault(f"c{c}", []).append(d)
+    return {k: w[k] for k in sorted(w)}
+
+
 def hof_digest(hof):
-    return [[repr(float(s)), describe(c), None if c is None else c.to_openqasm()] for s, c in hof]
+    return [[repr(float(s)), wires(c)] for s, c in hof]
 
 
 def make_solver(cfg):
@@ -117,11 +132,8 @@ def evaluate_like_solve(solver, circuit):
 
 def run_digest(cfg):
     s = run_solver(cfg)
-    logs = {}
-    for key in ("population", "hof"):
-        df = s.logs[key]
-        logs[key] = [[repr(float(v)) for v in df[col]] for col in ("cost_min", "cost_max", "cost_mean", "depth_mean")]
-    return {"hof": hof_digest(s.hof), "result": [repr(float(s.result[0])), describe(s.result[1])], "logs": logs}
+    return {"hof": hof_digest(s.hof), "result": [repr(float(s.result[0])), wires(s.result[1])],
+            "registers": [[c.n_emitters, c.n_photons, c.n_classical] for _, c in s.hof if c is not None]}
 
 
 def _first_diff(a, b, path=""):
@@ -381,7 +393,7 @@ def invariants_case(cfg):
 @S.item("solve.reproducible_same_process", site="graphiq.solvers.solver_base:SolverBase.seed",
         bound="same config grid as solve.generation_invariants (fewer seeds): two runs with the same seed in one process, a run "
               "with another seed in between",
-        clause="fixed seed => same hall of fame (scores, circuits), same result, same logs")
+        clause="fixed seed => same hall of fame (scores, circuits), same result")
 def repro_case(cfg):
     a = run_digest(cfg)
     other = dict(cfg, seed=cfg["seed"] + 1000)
@@ -397,24 +409,46 @@ def _batch_digest(cfgs):
     return [run_digest(c) for c in cfgs]
 
 
+def _digests_in_subprocess(cfgs, hashseed):
+    env = dict(os.environ, PYTHONHASHSEED=str(hashseed))
+    p = subprocess.run([sys.executable, "-W", "ignore", "-c",
+                        "import sys, json; from bounded.C19 import _batch_digest; "
+                        "print(json.dumps(_batch_digest(json.load(sys.stdin))))"],
+                       input=json.dumps(cfgs), capture_output=True, text=True, env=env, timeout=900)
+    if p.returncode != 0:
+        return f"solver run raised in subprocess (PYTHONHASHSEED={hashseed}): {p.stderr[-400:]}"
+    return json.loads(p.stdout.strip().splitlines()[-1])
+
+
+_PROC_CACHE = {}  # (jkey(cfg), hashseed) -> digest ; filled in bulk by run(), lazily on replay
+
+
+def _ck(cfg):
+    return json.dumps(cfg, sort_keys=True)
+
+
+def _bulk(args):
+    cfgs, hs = args
+    return _digests_in_subprocess(cfgs, hs)
+
+
 @S.item("solve.reproducible_across_hashseeds", site="graphiq.solvers.solver_base:SolverBase.seed",
-        bound="batches of configs run in two fresh interpreters with PYTHONHASHSEED=1 and 2 (set iteration order must not reach a random index)",
-        clause="fixed seed => same hall of fame, independent of the interpreter's hash seed")
-def repro_proc_case(cfgs):
+        bound="targets path3, cycle4 x solvers {evolutionary with 1 and 2 emitters, hybrid} x (n_pop,n_stop,n_hof) in {(4,3,2),(8,5,3)} "
+              "x (selection, adaptive) in {off/off, on/on} x seeds: the same config in two fresh interpreters with PYTHONHASHSEED=1 and 2",
+        clause="fixed seed => same hall of fame, whatever the interpreter's hash seed (set iteration order must not reach a random index)")
+def repro_proc_case(cfg):
     res = []
-    for hs in ("1", "2"):
-        env = dict(os.environ, PYTHONHASHSEED=hs)
-        p = subprocess.run([sys.executable, "-W", "ignore", "-c",
-                            "import sys, json; from bounded.C19 import _batch_digest; "
-                            "print(json.dumps(_batch_digest(json.load(sys.stdin))))"],
-                           input=json.dumps(cfgs), capture_output=True, text=True, env=env, timeout=600)
-        if p.returncode != 0:
-            return f"solver run raised in subprocess (PYTHONHASHSEED={hs}): {p.stderr[-400:]}"
-        res.append(json.loads(p.stdout.strip().splitlines()[-1]))
-    for i, (a, b) in enumerate(zip(*res)):
-        d = _first_diff(a, b, "run")
-        if d:
-            return f"config #{i} {json.dumps(cfgs[i])}: PYTHONHASHSEED=1 and 2 differ at {d}"
+    for hs in (1, 2):
+        key = (_ck(cfg), hs)
+        if key not in _PROC_CACHE:
+            r = _digests_in_subprocess([cfg], hs)
+            _PROC_CACHE[key] = r if isinstance(r, str) else r[0]
+        if isinstance(_PROC_CACHE[key], str):
+            return _PROC_CACHE[key]
+        res.append(_PROC_CACHE[key])
+    d = _first_diff(res[0], res[1], "run")
+    if d:
+        return f"PYTHONHASHSEED=1 and 2 give different results for seed {cfg['seed']}: {d}"
     return None
 
 
@@ -451,8 +485,16 @@ def run(tier, seed):
     S.map("solve.generation_invariants", inv, chunksize=4)
     rep = configs([base + s for s in range(8 if thorough else 2)], with_dm=True)
     S.map("solve.reproducible_same_process", rep, chunksize=4)
-    hs = configs([base + s for s in range(4 if thorough else 1)], with_dm=False)
-    nb = 64 if thorough else 32
-    batches = [hs[i::nb] for i in range(nb)]
-    S.map("solve.reproducible_across_hashseeds", [b for b in batches if b], procs=min(nb, int(os.environ.get("VERIF_PROCS", "16"))), chunksize=1)
+    hs = [c for c in configs([base + s for s in range(6 if thorough else 2)], with_dm=False)
+          if c["target"] in ("path3", "cycle4") and c["sel"] == c["adapt"]]
+    procs = int(os.environ.get("VERIF_PROCS", "16"))
+    nb = max(1, min(len(hs), procs))
+    jobs = [(hs[i::nb], h) for i in range(nb) for h in (1, 2)]
+    import multiprocessing.pool as mpp
+    with mpp.ThreadPool(procs) as tp:
+        outs = tp.map(_bulk, jobs)
+    for (cfgs, h), out in zip(jobs, outs):
+        for i, c in enumerate(cfgs):
+            _PROC_CACHE[(_ck(c), h)] = out if isinstance(out, str) else out[i]
+    S.map("solve.reproducible_across_hashseeds", hs, procs=1)
     return S
